@@ -10,7 +10,7 @@ ANCHORS = ["pyoma2.functions.gen:MAC", "pyoma2.functions.gen:MPC", "pyoma2.funct
 REQUIRED_MONITORS = ["views-of-one-array@MAC", "set=columns@MCF", "arguments-unchanged+auto-MAC", "mixed-dtype MAC", "range@MAC", "range@MPC", "range@MPD", "range@MCF", "shape+symmetry@MAC", "scale-invariance", "collinear-exact", "near-unit-length MAC",
                      "MSF(v,cv)=c", "contracts-active-during-SSI-run"]
 CLASSES = ["generic", "generic_unit_normalised", "generic_zero_or_real_components", "nearly_collinear_1e-8", "nearly_collinear_1e-3", "collinear", "collinear_unit_normalised", "collinear_zero_components",
-           "collinear_halves", "constant", "isotropic_reference", "sets"]
+           "collinear_halves", "constant", "isotropic_reference", "ring", "sets"]
 ALL_STATES = ["class:" + c for c in CLASSES] + ["n=2", "n>=33"]
 REQUIRED_STATES = ["class:" + c for c in CLASSES] + ["n=2", "sets with more shapes than components"]
 RULE = ("icontract postconditions (range, shape, finiteness) attached to the real gen.MAC/MPC/MPD/MCF/MSF and evaluated on every call made by "
@@ -200,6 +200,14 @@ def draw(rng, cls):
         if np.count_nonzero(v) < 2:
             v[:2] = [1.0, -0.5]
         phi = v.astype(complex)
+    elif cls == "ring":
+        # a travelling-wave / rotating shape: the components lie on a circle in the complex plane (sensors around a tower or a rotor, two
+        # orthogonal real modes in quadrature), the least collinear shape there is - MPC is 0 up to rounding, MPD about 45 degrees
+        n = int(rng.integers(3, 25))
+        kk = np.arange(n) * int(rng.choice([1, 1, 2])) if n > 4 else np.arange(n)
+        phi = np.exp(2j * np.pi * kk / n)
+        if rng.random() < 0.5:
+            phi = phi / phi[0]
     elif cls == "constant":
         phi = np.full(n, float(rng.choice([1.0, -2.5, 0.3])), dtype=complex)
     else:
@@ -233,6 +241,11 @@ def run_vectors(ctx, case, rng):
         for nm in ("MPC", "MPD", "MCF"):
             v2 = call(ctx, nm, c2 * phi)
             a, b = np.ravel(np.real(vals[nm]))[0], np.ravel(np.real(v2))[0]
+            if nm == "MPD" and cls == "ring":
+                # components on a circle have no best-fit line through the origin (both principal axes are equally good): the mean phase deviation
+                # from "the" line is not defined there, only its range is
+                ctx.not_judged("MPD invariance on a circular shape (principal axis undefined)")
+                continue
             if np.isfinite(a) and np.isfinite(b):
                 ctx.maxi(f"scale-invariance {nm}: worst change", abs(a - b))
                 ctx.check(abs(a - b) <= 1e-6, f"{nm}:not_scale_invariant", lambda: f"{nm}(phi)={a!r} but {nm}(c*phi)={b!r} for c={c2:.4g} ({cls}, n={n})")
@@ -272,6 +285,10 @@ def run_vectors(ctx, case, rng):
                 else:
                     ctx.check(abs(got - exp) <= 1e-9 if nm != "MPD" else abs(got - exp) <= 1e-6, f"{nm}:collinear_value:{d}",
                               lambda: f"{nm} of c*v (v real, c={c:.4g}) is {got!r}, expected {exp} (n={n}, class {cls})")
+        if cls == "ring":
+            for cc in (1.0, 2 + 1j, 1e6, -3000 + 4000j, 1e-5j, complex(cfac(rng))):
+                call(ctx, "MPC", cc * phi)  # finiteness and range are the postconditions attached to the function
+                call(ctx, "MPD", cc * phi)
         # MSF
         ctx.ev("MSF(v,cv)=c")
         cr = float(rng.choice([-1, 1]) * 10 ** rng.uniform(-6, 6))
@@ -280,6 +297,10 @@ def run_vectors(ctx, case, rng):
         d = describe(base)
         if np.any(np.isnan(msf)):
             ctx.fail(f"MSF:nan:{mech('MSF', d)}", f"MSF(v, c*v) is NaN for c={cr:.4g} (class {d}, n={n})")
+        elif "isotropic" in d.split("+") and not (np.shape(msf) == (1,) and abs(msf[0] - cr) <= 1e-9 * abs(cr)):
+            # the same mechanism as the NaN: the bilinear form v^T v of the denominator vanishes - here only up to rounding, so that the quotient
+            # of two rounding residues is returned
+            ctx.fail(f"MSF:nan:{mech('MSF', d)}", f"MSF(v, c*v) = {msf!r} for c={cr:.6g}: sum(v_i^2) vanishes up to rounding, the quotient is arbitrary (class {d}, n={n})")
         else:
             ctx.check(np.shape(msf) == (1,) and abs(msf[0] - cr) <= 1e-9 * abs(cr), f"MSF:value:{d}", lambda: f"MSF(v, {cr:.6g}*v) = {msf!r} (class {d}, n={n})")
         if len(set(np.round(np.abs(phi0), 9))) >= 2:
